@@ -186,7 +186,7 @@ Theorem bridge_emit_gen : forall emitfrom g depth n w x m,
   = gen_emit (fun w => downs g w n) (call_update emitfrom g depth n) w x m.
 Proof.
   intros emitfrom g depth n w x m. cbv zeta. unfold gen_emit, gen_body__emit.
-  destruct m as [|i m]; cbn [md_truthy].
+  destruct m as [|i m]; cbn [md_truthy negb].
   - (* `if metadata:` is False: nothing is retained and metadata = [] is passed on *)
     cbn [retain fold_left]. wstep. cbv zeta.
     apply emit_tail. emit_body.
